@@ -34,13 +34,14 @@ pub(crate) fn mk_buffer(cols: usize, rows: usize, sb: usize, limit: Option<usize
         }
         lines.push(l);
     }
-    Buffer {
-        lines,
-        cols,
-        rows,
-        scrollback_limit: mk_limit(limit),
-        trim_needed,
-    }
+    // real constructor + field assignments (no struct literal, see terminal.rs any_saved_ctx)
+    let mut b = Buffer::new(cols, rows, Some(0), None);
+    b.lines = lines;
+    b.cols = cols;
+    b.rows = rows;
+    b.scrollback_limit = mk_limit(limit);
+    b.trim_needed = trim_needed;
+    b
 }
 
 pub(crate) fn b_lines(b: &Buffer) -> &Vec<Line> {
@@ -76,19 +77,6 @@ pub(crate) fn b_set_wrapped(b: &mut Buffer, i: usize, v: bool) {
 }
 pub(crate) fn b_set_line(b: &mut Buffer, i: usize, l: Line) {
     b.lines[i] = l;
-}
-pub(crate) fn b_clone(b: &Buffer) -> Buffer {
-    let mut lines: Vec<Line> = Vec::with_capacity(b.lines.len() + 4);
-    for l in b.lines.iter() {
-        lines.push(l.clone());
-    }
-    Buffer {
-        lines,
-        cols: b.cols,
-        rows: b.rows,
-        scrollback_limit: b.scrollback_limit.as_ref().map(|l| ScrollbackLimit { soft: l.soft, hard: l.hard }),
-        trim_needed: b.trim_needed,
-    }
 }
 pub(crate) fn b_forget(b: Buffer) {
     std::mem::forget(b);
